@@ -640,6 +640,33 @@ def run(ctx):
                 ctx.fail("asconsum:unreadable:%s" % flag, "argument %s: exit %d, output %r" % (os.path.basename(bad), rc, o[:200]))
             ctx.stat("nontrivial")
 
+    # ---------------- file names and places: names with spaces, newlines, leading dashes, non-ASCII bytes, the longest component; sub-directories; outputs in missing directories; directories as input or output
+    d = wd()
+    os.makedirs(os.path.join(d, "sub dir"))
+    for name in ("with space.bin", "new\nline.bin", "-dash.bin", "\xc3\xa9\xff.bin", "x" * 240 + ".bin", "sub dir/in.bin", ".hidden", "a.ascon.ascon"):
+        data = content(33, 1)
+        src = os.path.join(d, name)
+        write(src, data)
+        rel = name if not name.startswith("-") else "./" + name
+        rc, o, e = tool([crypt, "-e", "-p", "pw", rel], cwd=d)
+        enc = src + ".ascon"
+        okenc = rc == 0 and os.path.isfile(enc) and os.path.getsize(enc) == 33 + 96
+        os.unlink(src)
+        rc2, o2, e2 = tool([crypt, "-d", "-p", "pw", rel + ".ascon"], cwd=d) if okenc else (None, b"", b"")
+        if not okenc or rc2 != 0 or not os.path.isfile(src) or open(src, "rb").read() != data:
+            ctx.fail("asconcrypt:file-names", "round trip by default names of a file called %r: encrypt exit %s, decrypt exit %s: %s" % (name[:40], rc, rc2, (e + e2)[-120:]))
+        ctx.stat("nontrivial")
+    write(os.path.join(d, "p.bin"), content(50, 1))
+    for args, what, leftover in (([crypt, "-e", "-p", "pw", "-o", "missing/out.enc", "p.bin"], "output in a missing directory", "missing"),
+                                 ([crypt, "-e", "-p", "pw", "-o", "sub dir", "p.bin"], "output path is a directory", None),
+                                 ([crypt, "-e", "-p", "pw", "-o", "o1.enc", "sub dir"], "input is a directory", "o1.enc"),
+                                 ([crypt, "-d", "-p", "pw", "-o", "o2.bin", "sub dir"], "input is a directory (decrypt)", "o2.bin"),
+                                 ([crypt, "-e", "-p", "pw", "-o", "o3.enc", "nope.bin"], "input does not exist", "o3.enc"),
+                                 ([crypt, "-e", "-k", "nokey", "-o", "o4.enc", "p.bin"], "key file does not exist", "o4.enc")):
+        rc, o, e = tool(args, cwd=d)
+        if rc == 0 or (leftover and os.path.exists(os.path.join(d, leftover))) or not os.path.isdir(os.path.join(d, "sub dir")):
+            ctx.fail("asconcrypt:file-places", "%s: exit status %d, %s" % (what, rc, "something left behind or removed" if rc != 0 else "reported success"))
+        ctx.stat("nontrivial")
     # ---------------- the process environment: standard descriptors closed at start (round trip, wrong password, key generation, digests)
     for cl in ((0,), (1,), (2,), (0, 1, 2)):
         CLOSED[0] = cl
